@@ -2,6 +2,7 @@ SPECIFICATION Spec
 CONSTANTS
   Legacy = FALSE
   Emit = TRUE
+  Light = FALSE
   MaxR = 2
 INVARIANT MImpliesP
 INVARIANT EmitCases
